@@ -29,6 +29,6 @@ def units(tier):
         H("C18", P, "check_adjust", t, ["loky.process_executor:ProcessPoolExecutor._adjust_process_count"], "0..4 registered, max_workers 1..4, context accepts env or not"),
         H("C18", P, "check_only_spawn_site", t, [], "AST scan of process_executor.py and reusable_executor.py"),
         ("lokyverif.esym_units", "c18_exit_status", {}),
-        ("lokyverif.esym_units", "c18_initializers", {}),
+        H("C18", M, "check_prepare_initializer", t, ["loky.initializers:_prepare_initializer", "loky.initializers:_chain_initializers", "loky.initializers:_ChainedInitializer.__call__"], "initializer None / callable / non-callable, viztracer initializer present or not"),
     ]
     return u
